@@ -1,5 +1,8 @@
 import DswModel.Model.Float
 import DswModel.Lemmas.FloatRound
+import DswModel.Lemmas.FloatSpecLog
+import DswModel.Lemmas.FloatSpecPos
+import DswModel.Lemmas.FloatSpecDouble
 /-!
 # The rounding model against the IEEE-754 binary64 specification (round to nearest, ties to even)
 
@@ -26,7 +29,7 @@ def IsB64 (num : Int) (den : Nat) : Prop :=
 theorem ratLog2_spec (n d : Nat) (hn : 0 < n) (hd : 0 < d) :
     (if ratLog2 n d ≥ 0 then d * 2 ^ (ratLog2 n d).toNat ≤ n else d ≤ n * 2 ^ (-(ratLog2 n d)).toNat) ∧
     (if ratLog2 n d + 1 ≥ 0 then n < d * 2 ^ (ratLog2 n d + 1).toNat else n * 2 ^ (-(ratLog2 n d + 1)).toNat < d) := by
-  sorry
+  exact ratLog2_spec' n d hn hd
 
 /-- the positive core: `roundPos n d = (m, e)` with `e` the exponent of the last place (`≥ −1074`), a significand of at
 most 53 bits (`m ≤ 2^53`, where `2^53` only arises by rounding up and is `2^52·2^(e+1)`), a normalised significand
@@ -42,34 +45,38 @@ theorem roundPos_spec (n d : Nat) (hn : 0 < n) (hd : 0 < d) :
      else
         (2 * (n * 2 ^ (-e).toNat - m * d : Int).natAbs ≤ d) ∧
         (2 * (n * 2 ^ (-e).toNat - m * d : Int).natAbs = d → m % 2 = 0)) := by
-  sorry
+  obtain ⟨k, S⟩ := roundPos_posSpec n d hn hd
+  have hk := S.hk
+  exact ⟨by omega, S.m_le, fun h => S.m_ge (by omega), roundPos_half n d hd⟩
 
 /-- every result is a finite binary64 value. -/
 theorem roundDouble_isB64 (num : Int) (den : Nat) (r : Dbl) (hden : 0 < den) (h : roundDouble num den = some r) :
     IsB64 r.num r.den := by
-  sorry
+  exact roundDouble_isB64' num den r hden h
 
 /-- the sign is kept: the result of a non-negative input is non-negative, of a non-positive input non-positive. -/
 theorem roundDouble_sign (num : Int) (den : Nat) (r : Dbl) (h : roundDouble num den = some r) :
     (0 ≤ num → 0 ≤ r.num) ∧ (num ≤ 0 → r.num ≤ 0) := by
-  sorry
+  exact roundDouble_sign' num den r h
 
 /-- ROUND TO NEAREST: no finite binary64 value `y = yn/yd` is strictly nearer to `num/den` than the result `r`:
 `|num/den − r| ≤ |num/den − y|`, cross-multiplied. -/
 theorem roundDouble_nearest (num : Int) (den : Nat) (r : Dbl) (hden : 0 < den) (h : roundDouble num den = some r)
     (yn : Int) (yd : Nat) (hy : IsB64 yn yd) :
     (num * r.den - r.num * den).natAbs * yd ≤ (num * yd - yn * den).natAbs * r.den := by
-  sorry
+  obtain ⟨_, m', e', hm', he1, _, hy⟩ := hy
+  exact roundDouble_nearest' num den r hden h yn yd m' e' hm' he1 hy
 
 /-- OVERFLOW: `none` exactly when the magnitude reaches the threshold `(2^54 − 1)·2^970 = (2^53 − 1/2)·2^971`, where
 IEEE round-to-nearest gives infinity. -/
 theorem roundDouble_none_iff (num : Int) (den : Nat) (hden : 0 < den) :
     roundDouble num den = none ↔ (2 ^ 54 - 1) * 2 ^ 970 * den ≤ num.natAbs := by
-  sorry
+  exact roundDouble_none_iff' num den hden
 
 /-- a value that already is a binary64 value is returned unchanged (as a fraction). -/
 theorem roundDouble_of_isB64 (num : Int) (den : Nat) (h : IsB64 num den) :
     ∃ r, roundDouble num den = some r ∧ r.num * den = num * r.den := by
-  sorry
+  obtain ⟨hden, m', e', hm', he1, he2, hy⟩ := h
+  exact roundDouble_fixed' num den hden m' e' hm' he1 he2 hy
 
 end Dsw
